@@ -35,10 +35,20 @@ def r1(ctx):
     me = repo.cls("preprocessor", "MacroExpander")
     n = 0
     for f in me.methods.values():
+        # a local bound once to one of the stacks (`stack = self.parser_stack`) is that stack
+        binds = {}
+        for x in walk_no_nested(f.node):
+            if isinstance(x, ast.Name) and isinstance(x.ctx, ast.Store):
+                binds.setdefault(x.id, 0)
+                binds[x.id] += 1
+        alias = {"self.parser_stack": ["self.parser_stack"], "self.no_expand": ["self.no_expand"]}
+        for x in walk_no_nested(f.node):
+            if isinstance(x, ast.Assign) and len(x.targets) == 1 and isinstance(x.targets[0], ast.Name) and u(x.value) in alias and binds.get(x.targets[0].id) == 1:
+                alias[u(x.value)].append(x.targets[0].id)
         for blk in _stmts_blocks(f.node):
             for kind in ("append", "pop"):
-                a = [s for s in blk if _is_call_stmt(s, f"self.parser_stack.{kind}")]
-                b = [s for s in blk if _is_call_stmt(s, f"self.no_expand.{kind}")]
+                a = [s for s in blk if any(_is_call_stmt(s, f"{r}.{kind}") for r in alias["self.parser_stack"])]
+                b = [s for s in blk if any(_is_call_stmt(s, f"{r}.{kind}") for r in alias["self.no_expand"])]
                 if not a and not b:
                     continue
                 n += 1
@@ -259,7 +269,16 @@ def r5(ctx):
         ok = u(raw) == "arg"
         if ok and u(ex) != "arg":
             vals = env.get(u(ex), [])
-            ok = len(vals) == 1 and isinstance(vals[0], ast.Call) and u(vals[0].func).endswith(".expand") and u(vals[0].args[0]) == "arg"
+
+            def good(v):
+                # the expansion of arg, arg itself, or a conditional expression choosing between the two
+                if isinstance(v, ast.IfExp):
+                    return good(v.body) and good(v.orelse)
+                if isinstance(v, ast.Name):
+                    return v.id == "arg"
+                return isinstance(v, ast.Call) and u(v.func).endswith(".expand") and bool(v.args) and u(v.args[0]) == "arg"
+
+            ok = len(vals) == 1 and good(vals[0]) and not isinstance(vals[0], ast.Name)
         ctx.check(ok, key, f"pair must be (arg, arg) or (arg, <expansion of arg>): {u(a)}", exp.loc(c))
     # the consumer passes the list it built
     calls = [c for c in exp.calls() if u(c.func) == "macro_lookup.replace" and c.args]
@@ -530,3 +549,53 @@ def r10(ctx):
             want = f"Macro({mm.params[0]}, {mm.params[2]})" if isnone else f"MacroFunction({mm.params[0]}, {mm.params[1]}, {mm.params[2]})"
             ctx.check(rv == want, key, f"returns {rv}, expected {want}", mm.loc())
     ctx.floor(8)
+
+
+@rule("C03.R13", "a macro name met while it is being replaced is painted before it is put back, whatever follows it")
+def r13(ctx):
+    """Table specification over the body of expand()'s scanning loop (one iteration, inner loops not entered): on
+    every path that puts the *raw* token back (`replace_tok(tok)`, not a copy) although the token names a macro
+    (`get_macro(tok.token)` holds), `not_expandable(tok)` has been asked and is false.  A name that is in the
+    no-expand set (or already painted) and is put back unpainted - e.g. because the test for a following `(` was
+    moved in front of the paint step - becomes available for replacement again when the rescan continues in an
+    outer frame (C11 6.10.3.4p2)."""
+    from .. import review
+
+    repo = ctx.repo
+    f = repo.func("preprocessor", "MacroExpander.expand")
+    loops = [lp for lp in review._loops(f.node) if any(isinstance(n, ast.Call) and u(n.func) == "self.not_expandable" for n in ast.walk(lp))]
+    ctx.require(len(loops) >= 1, "expand(): no loop consults not_expandable()")
+    lp = loops[0]
+    try:
+        rows = review.block_table(list(lp.body), unroll=0, fi=f, max_paths=3000)
+    except AnalysisError as e:
+        ctx.require(False, f"expand(): scanning loop not tabulated: {e}")
+    toks = {m.group(1) for p in rows for k in p.atoms for m in [re.fullmatch(r"self\.not_expandable\((.*)\)", k)] if m}
+    ctx.require(len(toks) == 1, f"expand(): not_expandable() is asked about {sorted(toks)}")
+    tok = toks.pop()
+    n = bad = 0
+    for p in rows:
+        puts = [e for e in p.effects if e[0] == "call" and e[1] == "self.replace_tok" and len(e) > 2 and str(e[2]).strip("<>") == tok]
+        if not puts:
+            continue
+        names_macro = any(v for k, v in p.atoms.items() if re.fullmatch(r"self\.platform\.get_macro\(" + re.escape(tok) + r"\.token\)", k))
+        unknown = not any(re.fullmatch(r"self\.platform\.get_macro\(" + re.escape(tok) + r"\.token\)", k) for k in p.atoms)
+        if not (names_macro or unknown):
+            continue
+        n += 1
+        asked = p.atoms.get(f"self.not_expandable({tok})")
+        if asked is not False:
+            bad += 1
+            ctx.violation(
+                "preprocessor:MacroExpander.expand:raw-put-back-unpainted",
+                f"a path of the scanning loop puts the token back as it is (`replace_tok({tok})`) although it names a macro, and not_expandable() was {'true' if asked else 'never asked'} on it ({p.describe()[:200]}): the name of a macro under replacement stays replaceable",
+                f.loc(lp),
+            )
+            break
+    ctx.require(n >= 1, "expand(): no path puts a macro name back unexpanded (function-like name without `(`): idiom not recognised")
+    if not bad:
+        ctx.ok("preprocessor:MacroExpander.expand:raw-put-back-unpainted", f"{n} paths")
+    painted = [p for p in rows if p.atoms.get(f"self.not_expandable({tok})") is True]
+    ok = bool(painted) and all(any(e[0] == "call" and e[1] == "self.replace_tok" and "copy(" in str(e[2]) for e in p.effects) and any(e[0] == "store" and str(e[1]).endswith(".expandable") for e in p.effects) for p in painted)
+    ctx.soft(ok, "preprocessor:MacroExpander.expand:painted-copy", "a non-expandable name is put back as a painted copy", f.loc(lp))
+    ctx.floor(2)
